@@ -1,0 +1,225 @@
+//! Verification hooks (feature `verif-hooks`, off by default).
+//!
+//! Thin, add-only wrappers which expose crate-private functions to an external
+//! differential-testing harness. Nothing here is used by svgdx itself.
+
+use std::collections::HashSet;
+use std::io::Cursor;
+
+use crate::context::{ElementMap, TransformerContext};
+use crate::element::SvgElement;
+use crate::errors::SvgdxError;
+use crate::position::Position;
+use crate::themes::ThemeBuilder;
+use crate::transform::Transformer;
+use crate::transform_attr::TransformAttr;
+use crate::TransformConfig;
+
+/// Name of the error variant (a stable, small enum for comparisons).
+pub fn errkind(e: &SvgdxError) -> &'static str {
+    match e {
+        SvgdxError::IoError(_) => "IoError",
+        SvgdxError::ParseError(_) => "ParseError",
+        SvgdxError::InvalidData(_) => "InvalidData",
+        SvgdxError::ReferenceError(_) => "ReferenceError",
+        SvgdxError::VarLimitError(..) => "VarLimitError",
+        SvgdxError::LoopLimitError(..) => "LoopLimitError",
+        SvgdxError::DepthLimitExceeded(..) => "DepthLimitExceeded",
+        SvgdxError::CircularRefError(_) => "CircularRefError",
+        SvgdxError::DocumentError(_) => "DocumentError",
+        SvgdxError::MissingAttribute(_) => "MissingAttribute",
+        SvgdxError::MissingBoundingBox(_) => "MissingBoundingBox",
+        SvgdxError::MessageError(_) => "MessageError",
+        SvgdxError::InternalLogicError(_) => "InternalLogicError",
+        SvgdxError::MultiError(_) => "MultiError",
+        SvgdxError::OtherError(_) => "OtherError",
+    }
+}
+
+/// Error kinds of a (possibly multi-) error, sorted.
+pub fn errkinds(e: &SvgdxError) -> Vec<&'static str> {
+    let mut out = Vec::new();
+    if let SvgdxError::MultiError(m) = e {
+        for (_, (_, inner)) in m.iter() {
+            out.extend(errkinds(inner));
+        }
+    } else {
+        out.push(errkind(e));
+    }
+    out.sort();
+    out
+}
+
+pub fn fstr(x: f32) -> String {
+    crate::types::fstr(x)
+}
+
+pub fn strp(s: &str) -> Option<f32> {
+    crate::types::strp(s).ok()
+}
+
+pub fn split_unit(s: &str) -> Option<(f32, String)> {
+    crate::types::split_unit(s).ok()
+}
+
+pub fn attr_split(s: &str) -> Vec<String> {
+    crate::types::attr_split(s).collect()
+}
+
+pub fn text_string(s: &str) -> String {
+    crate::text::verif_text_string(s)
+}
+
+/// Evaluate an attribute value with the given variables and seed.
+/// Returns the result and the next raw word of the random stream afterwards.
+pub fn eval_attr(
+    value: &str,
+    vars: &[(String, String)],
+    seed: u64,
+) -> (Result<String, &'static str>, u32) {
+    use rand::Rng;
+    let cfg = TransformConfig {
+        seed,
+        ..Default::default()
+    };
+    let mut ctx = TransformerContext::from_config(&cfg);
+    for (k, v) in vars {
+        ctx.set_var(k, v);
+    }
+    let res = crate::expression::eval_attr(value, &ctx).map_err(|e| errkind(&e));
+    let word = {
+        use crate::context::VariableMap;
+        ctx.get_rng().borrow_mut().random::<u32>()
+    };
+    (res, word)
+}
+
+pub fn eval_condition(value: &str, vars: &[(String, String)]) -> Result<bool, &'static str> {
+    let mut ctx = TransformerContext::new();
+    for (k, v) in vars {
+        ctx.set_var(k, v);
+    }
+    crate::expression::eval_condition(value, &ctx).map_err(|e| errkind(&e))
+}
+
+pub fn eval_list(value: &str, vars: &[(String, String)]) -> Result<Vec<String>, &'static str> {
+    let mut ctx = TransformerContext::new();
+    for (k, v) in vars {
+        ctx.set_var(k, v);
+    }
+    crate::expression::eval_list(value, &ctx).map_err(|e| errkind(&e))
+}
+
+/// Bounding box of an element given as name + attributes (after any `transform`).
+pub fn element_bbox(
+    name: &str,
+    attrs: &[(String, String)],
+) -> Result<Option<(f32, f32, f32, f32)>, &'static str> {
+    SvgElement::new(name, attrs)
+        .bbox()
+        .map(|bb| bb.map(|b| (b.x1, b.y1, b.x2, b.y2)))
+        .map_err(|e| errkind(&e))
+}
+
+pub fn path_bearing(d: &str) -> Result<String, &'static str> {
+    crate::bearing::process_path_bearing(d).map_err(|e| errkind(&e))
+}
+
+pub fn transform_apply(
+    transform: &str,
+    bb: (f32, f32, f32, f32),
+) -> Result<(f32, f32, f32, f32), &'static str> {
+    let t: TransformAttr = transform.parse().map_err(|e: SvgdxError| errkind(&e))?;
+    let b = t.apply(&crate::position::BoundingBox::new(bb.0, bb.1, bb.2, bb.3));
+    Ok((b.x1, b.y1, b.x2, b.y2))
+}
+
+/// `Position::from(element)` followed by `to_bbox()`.
+pub fn position_bbox(name: &str, attrs: &[(String, String)]) -> Option<(f32, f32, f32, f32)> {
+    let el = SvgElement::new(name, attrs);
+    Position::from(&el)
+        .to_bbox()
+        .map(|b| (b.x1, b.y1, b.x2, b.y2))
+}
+
+/// `resolve_position; transmute; resolve_position` on a stand-alone element
+/// in a context containing the given (already resolved) elements.
+pub fn resolve_element(
+    name: &str,
+    attrs: &[(String, String)],
+    others: &[(String, Vec<(String, String)>)],
+) -> Result<Vec<(String, String)>, &'static str> {
+    let mut ctx = TransformerContext::new();
+    for (oname, oattrs) in others {
+        let el = SvgElement::new(oname, oattrs);
+        ctx.update_element(&el);
+        if el.bbox().ok().flatten().is_some() {
+            ctx.set_prev_element(&el);
+        }
+    }
+    let mut e = SvgElement::new(name, attrs);
+    let r = (|| {
+        e.resolve_position(&ctx)?;
+        e.transmute(&ctx)?;
+        e.resolve_position(&ctx)?;
+        ctx.get_element_bbox(&e)?;
+        Ok(())
+    })();
+    match r {
+        Ok(()) => {
+            let mut out = e.attrs.to_vec();
+            if !e.classes.is_empty() {
+                out.push(("class".to_owned(), e.get_classes().join(" ")));
+            }
+            Ok(out)
+        }
+        Err(err) => Err(errkind(&err)),
+    }
+}
+
+/// Direct call of the theme builder.
+#[allow(clippy::too_many_arguments)]
+pub fn theme_build(
+    classes: &[String],
+    elements: &[String],
+    theme: &str,
+    background: &str,
+    font_size: f32,
+    font_family: &str,
+    local_id: Option<&str>,
+) -> Result<(Vec<String>, Vec<String>), &'static str> {
+    let cfg = TransformConfig {
+        theme: theme.parse().map_err(|e: SvgdxError| errkind(&e))?,
+        background: background.to_owned(),
+        font_size,
+        font_family: font_family.to_owned(),
+        ..Default::default()
+    };
+    let mut ctx = TransformerContext::from_config(&cfg);
+    ctx.local_style_id = local_id.map(|s| s.to_owned());
+    let elements: HashSet<String> = elements.iter().cloned().collect();
+    let classes: HashSet<String> = classes.iter().cloned().collect();
+    let mut tb = ThemeBuilder::new(&ctx, &elements, &classes);
+    tb.build();
+    Ok((tb.get_defs(), tb.get_styles()))
+}
+
+/// State of the context after a transform: (scope stack height, element stack
+/// height, depth counter, in-specs flag).
+pub type Probe = (usize, usize, u32, bool);
+
+pub fn transform_probe(
+    input: &str,
+    cfg: &TransformConfig,
+) -> (Result<String, Vec<&'static str>>, Probe) {
+    let mut t = Transformer::from_config(cfg);
+    let mut reader = Cursor::new(input.as_bytes().to_vec());
+    let mut output: Vec<u8> = vec![];
+    let res = t.transform(&mut reader, &mut output);
+    let probe = t.context.verif_probe();
+    (
+        res.map(|_| String::from_utf8_lossy(&output).into_owned())
+            .map_err(|e| errkinds(&e)),
+        probe,
+    )
+}
